@@ -385,7 +385,7 @@ fn varlen_case<const M: usize>(ctx: &mut Ctx, data: &[F], filler: F) {
                     &format!("poseidon:varlen-digest-depends-on-filler:len-{parity}"),
                     "var-len Poseidon: the accepted in-circuit digest differs from the hash of the payload (depends on the content of the unused tail)",
                     json!({"MAX_LEN": M, "len": data.len(), "data": hexes(data), "filler": fe_hex(&filler), "circuit_digest": fe_hex(&d), "hash_of_payload": fe_hex(&cpu),
-                           "where": "circuits/src/hash/poseidon/poseidon_varlen.rs: poseidon_varlen, `if i == MAX_LEN / RATE` is never true (last chunk index is MAX_LEN / RATE - 1), so constrain_last_chunk is never applied"}),
+                           "where": "circuits/src/hash/poseidon/poseidon_varlen.rs: poseidon_varlen must apply constrain_last_chunk to the last chunk (index MAX_LEN / RATE - 1); regression of the defect fixed by 7fb7af7"}),
                 );
             }
         }
